@@ -636,7 +636,7 @@ def tree_and_column_names(args):
             bad = [l.strip() for l in files["query.cxx"].splitlines() if ("TTree (" in l or "Branch(" in l) and (tree in l or cols[0] in l)]
             return True, "tree %r with columns %r is translated: %s" % (tree, cols, bad[:1])
     if want in ("member", "all"):
-        for cols in (["jet.pt", "a b"], ["pt-1", "x"], ["2nd", "x"]):
+        for cols in (["jet.pt", "a b"], ["pt-1", "x"], ["2nd", "x"], ["jet.pt", "jet_pt"], ["a-b", "a b"]):
             q = _dataset().SelectMany("lambda e: e.Jets('A')").Select("lambda j: (j.pt(), j.eta())").AsROOTTTree("f.root", "t", cols)
             try:
                 info, files = translate(q)
@@ -649,6 +649,10 @@ def tree_and_column_names(args):
                     return True, "column names %r: the class member is declared as `%s`, which is not a C++ identifier" % (cols, dline)
             if not all(('Branch("%s"' % c) in files["query.cxx"] for c in cols):
                 return True, "column names %r are not the names of the booked branches" % (cols,)
+            bound = re.findall(r'Branch\("[^"]*", &(\w+)\)', files["query.cxx"])
+            names = [dl.rstrip(";").split(None, 1)[1] for dl in decls]
+            if len(set(bound)) != len(cols) or len(set(names)) != len(names):
+                return True, "column names %r: the columns do not have their own storage each (members declared: %s; branches bound to: %s)" % (cols, names, bound)
     return False, "unrepresentable names are refused and members are identifiers"
 
 
